@@ -349,6 +349,8 @@ def base_catalogue():
     decls.append(Rec("Steps254", [F("a", "u8"), F("n0", "u8"), F("n1", "String")],
                      [("add", "n0", "0u8")] + [("rem", "old%d" % i) for i in range(126)] + [("add", "n1", "String::new()")]
                      + [("rem", "older%d" % i) for i in range(126)]))
+    # evolution metadata that references a field which is neither written nor removed: every encoding is the documented error (C17)
+    decls.append(Rec("DanglingOpt", [F("a", "u8"), F("b", "String")], [("opt", "nosuch")]))
     # nesting and recursion
     decls.append(Rec("Inner", [F("id", "String")]))
     decls.append(Rec("Outer", [F("head", "u16"), F("inner", "Inner"), F("list", "Vec<Inner>"), F("tail", "String")]))
